@@ -10,7 +10,10 @@ EXTRA_CHECK_FNS = ["check_sort"]
 RULE = ("Linear: 1-6 inputs, 1-3 units, random monotonicities, random ACYCLIC monotonic-dominance graphs on "
         "increasing inputs and range-dominance graphs on equally-directed bounded inputs (chains, diamonds, "
         "forests, shared parents, duplicates, random pair order), zero-width ranges on bystander inputs, "
-        "normalization none/1/2; Categorical: 2-8 buckets, random DAGs of ordering pairs, bounds "
+        "input_min / input_max given as list, tuple, and with 'none' / 'None' / 'NONE' strings in place of None, "
+        "normalization none/1/2; rootless monotonic- and range-dominance CYCLES of length 3-6 (accepted by "
+        "verify_hyperparameters, ValueError 'Circular monotonicity constraints' from the projection, None in the "
+        "model); Categorical: 2-8 buckets, random DAGs of ordering pairs, bounds "
         "none/min/max/both; weight classes: random dyadic, ties, zeros, sign-feasible, far (+-64). A few "
         "rootless cycles (ValueError expected on both sides). Non-trivial = the projection changed the "
         "weights; distinct = distinct (config, weights).")
@@ -20,7 +23,12 @@ TRUSTED = ["model: Model/PartialOrder.v + Model/LinearProject.v (hand-written fr
            "tie: LinearConstraints / CategoricalCalibrationConstraints called on float64 matrices; outputs "
            "compared in Coq; the model's topological order is re-validated in Coq on every case"]
 LIMITS = ["cyclic pair sets that still have a root are outside the property (acyclic sets only) and are not generated",
-          "float rounding outside the model (tolerance 1e-9)"]
+          "float rounding outside the model (tolerance 1e-9)",
+          "normalization_order is modelled for None, 1 and 2 only; the code passes any other value (3, inf, 0.5, "
+          "'euclidean', 0, ...) to tf.norm(ord=...) while the model treats every order other than 1 as the L2 norm, "
+          "so other orders are not generated and nothing is claimed about them",
+          "LinearConstraints receives monotonicities as a list of -1/0/1 only (string spellings and the scalar form "
+          "belong to the Linear layer, see C20)"]
 
 
 def rand_dag(rng, nodes, max_pairs):
@@ -67,9 +75,50 @@ def rand_weights(rng, n, units, klass, monos=None):
   return W
 
 
+BOUND_FORMS = ["list", "list", "list", "tuple", "str", "str", "tuple_str"]
+
+
+def bounds_arg(vals, form, present):
+  """The input_min / input_max argument in one of its accepted spellings: a list (None when no bound is set and
+  nothing needs one), a tuple, a list/tuple with 'none' strings (any capitalisation) in place of None."""
+  if form == "list":
+    return list(vals) if present else None
+  spell = ["none", "None", "NONE"]
+  if form in ("str", "tuple_str"):
+    vals = [spell[i % 3] if v is None else v for i, v in enumerate(vals)]
+  return tuple(vals) if form.startswith("tuple") else list(vals)
+
+
+def gen_cycle(rng):
+  """A dominance CYCLE of length >= 3 with no root (verify_hyperparameters only rejects 2-cycles): the projection's
+  topological sort raises ValueError('Circular monotonicity constraints'); the model answers None."""
+  n = rng.randint(3, 6)
+  k = rng.randint(3, n)
+  which = rng.choice(["mdom", "rdom"])
+  sign = 1 if which == "mdom" else rng.choice([1, 1, -1])
+  cyc = rng.sample(range(n), k)
+  monos = [rng.choice([-1, 0, 1]) for _ in range(n)]
+  lo, hi = [None] * n, [None] * n
+  for i in cyc:
+    monos[i] = sign
+    if which == "rdom":
+      a = tfimpl.dy(rng, -4, 4)
+      lo[i], hi[i] = a, a + rng.choice([0.5, 1.0, 2.0, 3.0])
+  pairs = [[cyc[i], cyc[(i + 1) % k]] for i in range(k)]
+  rng.shuffle(pairs)
+  units = rng.choice([1, 1, 2, 3])
+  klass = rng.choice(["random", "ties", "zeros", "signfeasible"])
+  return dict(kind="linear", n=n, units=units, monos=monos, mdom=pairs if which == "mdom" else [],
+              rdom=pairs if which == "rdom" else [], lo=lo, hi=hi, norm=rng.choice([None, None, 1, 2]),
+              W=rand_weights(rng, n, units, klass, monos), wclass=klass, cycle=which,
+              lo_form=rng.choice(BOUND_FORMS), hi_form=rng.choice(BOUND_FORMS))
+
+
 def gen_descs(ctx):
   rng = ctx.rng
   out = []
+  for _ in range(ctx.n(30, 300)):
+    out.append(gen_cycle(rng))
   for _ in range(ctx.n(350, 4000)):
     n = rng.randint(1, 6)
     units = rng.choice([1, 1, 2, 3])
@@ -116,7 +165,7 @@ def gen_descs(ctx):
     klass = rng.choice(["random", "random", "ties", "zeros", "far", "signfeasible", "tiny", "small"])
     W = rand_weights(rng, n, units, klass, monos)
     out.append(dict(kind="linear", n=n, units=units, monos=monos, mdom=mdom, rdom=rdom, lo=lo, hi=hi,
-                    norm=norm, W=W, wclass=klass))
+                    norm=norm, W=W, wclass=klass, lo_form=rng.choice(BOUND_FORMS), hi_form=rng.choice(BOUND_FORMS)))
   for _ in range(ctx.n(250, 3000)):
     n = rng.randint(2, 8)
     units = rng.choice([1, 1, 2, 3])
@@ -161,14 +210,16 @@ def eval_cases(ctx, descs):
     if d["kind"] == "linear":
       any_lo = any(v is not None for v in d["lo"])
       any_hi = any(v is not None for v in d["hi"])
+      built = False
       try:
         con = tfl.linear_layer.LinearConstraints(
             monotonicities=d["monos"],
             monotonic_dominances=[tuple(p) for p in d["mdom"]] or None,
             range_dominances=[tuple(p) for p in d["rdom"]] or None,
-            input_min=d["lo"] if (any_lo or d["rdom"]) else None,
-            input_max=d["hi"] if (any_hi or d["rdom"]) else None,
+            input_min=bounds_arg(d["lo"], d.get("lo_form", "list"), any_lo or d["rdom"]),
+            input_max=bounds_arg(d["hi"], d.get("hi_form", "list"), any_hi or d["rdom"]),
             normalization_order=d["norm"])
+        built = True
         res = con(tf.constant(W))
         out = _mat(res)
         again = _mat(con(res))
@@ -201,10 +252,17 @@ def eval_cases(ctx, descs):
                 fail = "unit %d has norm %r (order %d), neither 1 nor numerically zero" % (u, nrm, d["norm"])
           if fail is None and np.abs(np.array(again) - R).max() > 1e-9 * max(1, abs(R).max()):
             fail = "a feasible result is moved by projecting again (max change %r)" % np.abs(np.array(again) - R).max()
+      if exc == "ValueError" and not built:
+        # every generated configuration is valid for verify_hyperparameters (cycles of length >= 3 included)
+        fail = "LinearConstraints(...) rejected a valid configuration with ValueError"
       cfg = coq_lin_cfg(d)
       coq = "CLin %s %s %s %s" % (cfg, cnat(d["units"]), cqm(d["W"]), copt(out, cqm) if exc is None else "None")
-      klass = "lin_%s%s%s_%s" % ("m" if d["mdom"] else "", "r" if d["rdom"] else "",
-                                  "n%d" % d["norm"] if d["norm"] else "", d["wclass"])
+      forms = set([d.get("lo_form", "list"), d.get("hi_form", "list")])
+      klass = "lin_%s%s%s_%s%s%s" % ("m" if d["mdom"] else "", "r" if d["rdom"] else "",
+                                      "n%d" % d["norm"] if d["norm"] else "", d["wclass"],
+                                      "_cyc-" + d["cycle"] + ("" if exc else "-NOT-REJECTED") if d.get("cycle") else "",
+                                      ("_B" + ("t" if forms & set(["tuple", "tuple_str"]) else "") +
+                                       ("s" if forms & set(["str", "tuple_str"]) else "")) if forms != set(["list"]) else "")
     else:
       try:
         con = tfl.categorical_calibration_layer.CategoricalCalibrationConstraints(
